@@ -25,8 +25,8 @@ def body(c):
     c.cov["rule"] = (
         "TLC: every history of <= MaxOps calls of NetDataMC from every start "
         "object (empty / filled with distinct values, both z0 modes), indices "
-        "from {-1,0,n-1,n,n+1}, 11 invariants.  Implementation: 7 start "
-        "objects x every sequence of %d calls over a %s-call alphabet with "
+        "from {-1,0,n-1,n,n+1}, 11 invariants.  Implementation: %d start "
+        "objects x every sequence of %d calls over a %d-call alphabet with "
         "symbolic boundary indices (%d cases)%s, plus %d random histories of "
         "%d calls (dims 0..4, all 11 types + invalid, z0/fz0 switches, "
         "conversions in place and into a second object); each public call is "
@@ -35,9 +35,10 @@ def body(c):
         "entry, has_fz0, load/save options) must be explained by "
         "NetData!Apply; distinct_nontrivial counts episodes with pairwise "
         "different event sequences in which a state-changing call succeeded."
-        % (stats.get("exh_depth", 0), "91", stats.get("exh_cases", 0),
-           (" and depth %d over the 35-call core alphabet (%d cases)" %
-            (stats["exhc_depth"], stats["exhc_cases"]))
+        % (stats.get("prefixes", 0), stats.get("exh_depth", 0),
+           stats.get("alphabet_full", 0), stats.get("exh_cases", 0),
+           (" and depth %d over the %d-call core alphabet (%d cases)" %
+            (stats["exhc_depth"], stats["alphabet_core"], stats["exhc_cases"]))
            if "exhc_depth" in stats else "",
            stats.get("rand_cases", 0), stats.get("rand_len", 0)))
     c.cov["trusted_base"] = [
